@@ -2,6 +2,7 @@ import Momo.Proof.MMapHist
 import Momo.Proof.MMapHT
 import Momo.Proof.TrEqMisc2Bucket
 import Momo.Proof.TrEqWave2MMap
+import Momo.Proof.MMLedgerRefine
 /-!
 # C08 — Hash multimap equals the abstract key → value-list map
 
@@ -499,3 +500,131 @@ theorem C08_value_array_tests_translated (mf : Nat) (hmf : mf < Extracted.abMaxF
     TrEq.tr_ab_rep_tests⟩
 
 end Momo.MMap
+
+/-! ## the ledger layer (`Momo/Model/MMLedger.lean`, C03 / C04 of `HashMultiMap`) refines the abstract map
+
+The ledger model keeps, per key, the C08 value array next to the value objects and the heap block.  Its contents as an abstract
+multimap: `St.abs st k = (getArr st.mm.arrs k).bounds` (`Proof/MMLedgerRefine.lean`). -/
+namespace Momo.MML
+open Momo Momo.HT Momo.MMap
+
+/-- every value operation of the ledger model, when it answers `done ok` (`Clear`, `RemoveValues`: always), commutes with the
+abstract operation on `Key → List Value`: `Add` appends at the end of the key's list, `Remove(keyIter, i)` moves the last value
+into place `i` (`swapRemove`, the list-level specification of C08), `RemoveValues` / `RemoveKey` empty the key's list, `Clear`
+empties every list, `InsertKey` / `ResetKey` change no list -/
+def RefinesAt (cfg : Cfg) (hf : Nat → Nat) (st : St) : Prop :=
+  (∀ k tg v f w, (addL cfg hf st k tg v f w).2.2 = .done .ok →
+      (addL cfg hf st k tg v f w).1.abs = st.abs.set k (st.abs k ++ [v])) ∧
+  (∀ k v f w, (addAtL cfg hf st k v f w).2.2 = .done .ok →
+      (addAtL cfg hf st k v f w).1.abs = st.abs.set k (st.abs k ++ [v])) ∧
+  (∀ k i f w, (removeValueL cfg hf st k i f w).2.2 = .done .ok →
+      (removeValueL cfg hf st k i f w).1.abs = st.abs.set k (swapRemove (st.abs k) i)) ∧
+  (∀ k w, (removeValuesL cfg hf st k w).1.abs = st.abs.set k []) ∧
+  (∀ k f w, (removeKeyL cfg hf st k f w).2.2.1 = .done .ok → (removeKeyL cfg hf st k f w).1.abs = st.abs.set k []) ∧
+  (∀ w, (clearL cfg st w).1.abs = fun _ => []) ∧
+  (∀ k tg f w, (insertKeyL cfg hf st k tg f w).1.abs = st.abs) ∧
+  (∀ k tg w, (resetKeyL cfg hf st k tg w).1.abs = st.abs)
+
+/-- **the full statement** ("after any history … the container equals the abstract map", for the ledger model): in every state
+reachable from two new containers, both containers refine the abstract operations.  NOT proved: it needs that reachable states
+satisfy `St.Good` and `St.Tied` (distinct keys on the books, a key outside the key table has no array), i.e. the
+lookup-after-update lemmas of the key table for `HTL`. -/
+def C08_multimap_ledger_refines_spec : Prop :=
+  ∀ (cfg : Cfg) (hf : Nat → Nat) (ops : List OpT), 1 ≤ cfg.mf → cfg.mf < Extracted.abMaxFastLimit →
+    RefinesAt cfg hf (run cfg hf (Sys.init cfg) ops).a ∧ RefinesAt cfg hf (run cfg hf (Sys.init cfg) ops).b
+
+/-- **proved part: one step from every state whose books are `Good`** (distinct keys, well-formed value arrays) **and `Tied`**
+(no array for a key outside the key table), for every `maxFastCount` in `1 … 15` and every fault schedule of the step. -/
+theorem C08_multimap_ledger_refines_spec_partial (cfg : Cfg) (hf : Nat → Nat) (st : St) (h1 : 1 ≤ cfg.mf)
+    (hmf : cfg.mf < Extracted.abMaxFastLimit) (g : st.Good cfg) (ht : ∀ k, st.Tied cfg hf k) : RefinesAt cfg hf st :=
+  ⟨fun k tg v f w hok => addL_abs cfg hf st k tg v f w h1 hmf g (ht k) hok,
+   fun k v f w hok => addAtL_abs cfg hf st k v f w h1 hmf g hok,
+   fun k i f w hok => removeValueL_abs cfg hf st k i f w hmf g hok,
+   fun k w => removeValuesL_abs cfg hf st k w g (ht k),
+   fun k f w hok => removeKeyL_abs cfg hf st k f w g hok,
+   fun w => clearL_abs cfg st w,
+   fun k tg f w => insertKeyL_abs cfg hf st k tg f w,
+   fun k tg w => resetKeyL_abs cfg hf st k tg w⟩
+
+/-- **`Add(key, value)` for one key** needs `Tied` for this key only: the new value is the last of the key's list, every other
+list is untouched - whichever representation change (`fast -> bigger fast -> heap`, heap growth) the step made on the books. -/
+theorem C08_multimap_ledger_add_appends (cfg : Cfg) (hf : Nat → Nat) (st : St) (k tg v : Nat) (f : Flt) (w : W) (h1 : 1 ≤ cfg.mf)
+    (hmf : cfg.mf < Extracted.abMaxFastLimit) (g : st.Good cfg) (ht : st.Tied cfg hf k)
+    (hok : (addL cfg hf st k tg v f w).2.2 = .done .ok) :
+    (addL cfg hf st k tg v f w).1.abs k = st.abs k ++ [v] ∧ ∀ k', k' ≠ k → (addL cfg hf st k tg v f w).1.abs k' = st.abs k' := by
+  rw [addL_abs cfg hf st k tg v f w h1 hmf g ht hok]
+  exact ⟨by simp [Spec.set], fun k' hk => by simp [Spec.set, hk]⟩
+
+/-- **the system of two containers, one step**: every operation of the ledger model except copy assignment and
+`Remove(pairFilter)` (`Op.plain`) - `Add` into A or B, `Add(keyIter, …)`, `InsertKey`, `Remove(keyIter, i)`, `RemoveValues`,
+`RemoveKey`, `ResetKey`, `Clear`, move assignment, `Swap` - with any fault schedule and any pool traffic, acts on the pair of
+abstract multimaps as `absStep` says: the abstract operation if it answered "done", nothing otherwise. -/
+theorem C08_multimap_ledger_step_refines_spec_partial (cfg : Cfg) (hf : Nat → Nat) (s : Sys) (o : OpT) (h1 : 1 ≤ cfg.mf)
+    (hmf : cfg.mf < Extracted.abMaxFastLimit) (g : SysGood cfg hf s) (hp : o.op.plain = true) :
+    (stepT cfg hf s o).1.abs = absStep (stepT cfg hf s o).2.ok s.abs o.op :=
+  stepT_abs cfg hf s o h1 hmf g hp
+
+/-- **the full statement for histories**: every history of plain operations from two new containers refines the fold of the
+abstract operations.  NOT proved (the states passed through must be shown `SysGood`). -/
+def C08_multimap_ledger_history_refines_spec : Prop :=
+  ∀ (cfg : Cfg) (hf : Nat → Nat) (ops : List OpT), 1 ≤ cfg.mf → cfg.mf < Extracted.abMaxFastLimit →
+    (∀ o ∈ ops, o.op.plain = true) →
+    (run cfg hf (Sys.init cfg) ops).abs = absRun cfg hf (Sys.init cfg) (Sys.init cfg).abs ops
+
+/-- **proved part: whole histories from any state, as long as the states passed through are `SysGood`** -/
+theorem C08_multimap_ledger_history_refines_spec_partial (cfg : Cfg) (hf : Nat → Nat) (h1 : 1 ≤ cfg.mf)
+    (hmf : cfg.mf < Extracted.abMaxFastLimit) (ops : List OpT) (s : Sys)
+    (hg : ∀ pre, pre <+: ops → SysGood cfg hf (run cfg hf s pre)) (hp : ∀ o ∈ ops, o.op.plain = true) :
+    (run cfg hf s ops).abs = absRun cfg hf s s.abs ops :=
+  run_abs cfg hf h1 hmf ops s hg hp
+
+/-- **`St.Good` discharged from reachability**: two new containers are `Good` (distinct keys on the books, every value array
+well-formed) and every plain operation keeps both `Good`; so for histories FROM TWO NEW CONTAINERS only `Tied` (a key outside the
+key table has no value array on the books - a fact about the key table's lookup after its updates, not proved) is asked of the
+states passed through. -/
+theorem C08_multimap_ledger_history_refines_spec_partial2 (cfg : Cfg) (hf : Nat → Nat) (h1 : 1 ≤ cfg.mf)
+    (hmf : cfg.mf < Extracted.abMaxFastLimit) (ops : List OpT)
+    (ht : ∀ pre, pre <+: ops → SysTied cfg hf (run cfg hf (Sys.init cfg) pre)) (hp : ∀ o ∈ ops, o.op.plain = true) :
+    (run cfg hf (Sys.init cfg) ops).abs = absRun cfg hf (Sys.init cfg) (Sys.init cfg).abs ops :=
+  run_abs_tied cfg hf h1 hmf ops (Sys.init cfg) (init_good cfg).1 (init_good cfg).2 ht hp
+
+/-- one plain step keeps both containers `Good` (given `Tied` before the step) -/
+theorem C08_multimap_ledger_good_preserved (cfg : Cfg) (hf : Nat → Nat) (s : Sys) (o : OpT) (h1 : 1 ≤ cfg.mf)
+    (hmf : cfg.mf < Extracted.abMaxFastLimit) (ga : s.a.Good cfg) (gb : s.b.Good cfg) (t : SysTied cfg hf s)
+    (hp : o.op.plain = true) : (stepT cfg hf s o).1.a.Good cfg ∧ (stepT cfg hf s o).1.b.Good cfg :=
+  stepT_good cfg hf s o h1 hmf ga gb t.1 t.2 hp
+
+/-! Non-vacuity: container A after six `Add`s (Open8-like key table, `maxFastCount = 2`: key 1 with five values in a heap array of
+capacity 8, key 2 with one value in a fast block) is `Good`, key 1 is `Tied`; `Add(1, 99)` succeeds and appends. -/
+def x8Cfg : Cfg :=
+  { h := { sp := { maxCount := 7, quad := true, fullFrom := 7, unlimited := false, bound := .none, cap := .base, baseShift := true,
+                   logStart := 1, nothrowReloc := true },
+           cat := .nmove, hdr := 24, bsz := 120, psz := 8, csz := 16 },
+    mf := 2, vcat := .nmove, isz := 8, vsz := 200 }
+def x8Sys : Sys := run x8Cfg id (Sys.init x8Cfg)
+  [{ op := .add false 1 0 10 {} }, { op := .add false 1 0 11 {} }, { op := .add false 1 0 12 {} }, { op := .add false 1 0 13 {} },
+   { op := .add false 1 0 14 {} }, { op := .add false 2 0 20 {} }]
+theorem x8_good : x8Sys.a.Good x8Cfg := by
+  refine ⟨by decide +kernel, ?_⟩
+  intro p hp
+  have hm : p.2.arr ∈ x8Sys.a.vbs.map (·.2.arr) := List.mem_map_of_mem hp
+  rw [show x8Sys.a.vbs.map (·.2.arr) = [⟨.fast 17, [20]⟩, ⟨.heap 8, [10, 11, 12, 13, 14]⟩] by decide +kernel] at hm
+  simp only [List.mem_cons, List.not_mem_nil, or_false] at hm
+  rcases hm with h | h <;> rw [h]
+  · exact ⟨1, 1, by decide, by decide, by decide, by decide, rfl⟩
+  · simp [VArr.WF]
+
+example : x8Sys.a.abs 1 = [10, 11, 12, 13, 14] ∧ x8Sys.a.abs 2 = [20] ∧
+    (addL x8Cfg id x8Sys.a 1 0 99 {} x8Sys.w).2.2 = .done .ok := by decide +kernel
+
+example : (addL x8Cfg id x8Sys.a 1 0 99 {} x8Sys.w).1.abs 1 = [10, 11, 12, 13, 14, 99] :=
+  (C08_multimap_ledger_add_appends x8Cfg id x8Sys.a 1 0 99 {} x8Sys.w (by decide) (by decide) x8_good
+    (fun h => absurd h (by decide +kernel)) (by decide +kernel)).1.trans
+    (by rw [show x8Sys.a.abs 1 = [10, 11, 12, 13, 14] by decide +kernel]; rfl)
+
+/-- the conclusion of the history theorem on the six `Add`s, by evaluation -/
+example : (absRun x8Cfg id (Sys.init x8Cfg) (Sys.init x8Cfg).abs
+    [{ op := .add false 1 0 10 {} }, { op := .add false 1 0 11 {} }, { op := .add false 1 0 12 {} }, { op := .add false 1 0 13 {} },
+     { op := .add false 1 0 14 {} }, { op := .add false 2 0 20 {} }]).1 1 = x8Sys.a.abs 1 := by decide +kernel
+
+end Momo.MML
